@@ -43,7 +43,17 @@ inductive FileRes where
       file's directory; `resolveErr` = `paths.ResolveRelativePaths` failed (it runs *after* the
       `services` / base-present checks) -/
   | ok (doc : KVs) (resolveErr : Bool)
+  /-- the document loads but `paths.ResolveRelativePaths` panics at `site` (a non-string `extends.file` inside
+      the extended file reaches `absExtendsPath`); like `resolveErr` this happens *after* the `services` /
+      base-present checks -/
+  | okResolvePanic (doc : KVs) (site : String)
 deriving Repr, Inhabited
+
+/-- the Go function in which loading the file panics, if it does -/
+def FileRes.panicSite? : FileRes → Option String
+  | .panic s => some s
+  | .okResolvePanic _ s => some s
+  | _ => none
 
 abbrev FS := List (String × FileRes)
 
@@ -57,6 +67,9 @@ structure Env where
 def fsLookup (f : String) : FS → Option FileRes
   | [] => none
   | (k, r) :: rest => if f = k then some r else fsLookup f rest
+
+/-- loading file `f` panics at `s` (while loading, or while resolving its relative paths) -/
+def fsPanics (fs : FS) (f s : String) : Prop := ∃ r, fsLookup f fs = some r ∧ r.panicSite? = some s
 
 /-- `cycleTracker.Add` -/
 def trackerAdd (tr : List Key) (k : Key) : Option (List Key) :=
@@ -94,6 +107,14 @@ def baseFromFile (fs : FS) (refPath ref : String) : Out KVs :=
       match lookup ref svcs with
       | none => .err "notFoundInFile"
       | some _ => if rerr then .err "resolveErr" else .ok svcs
+    | some _ => .err "fileServicesNotMapping"
+  | some (.okResolvePanic doc site) =>
+    match lookup "services" doc with
+    | none => .err "noServices"
+    | some (.map svcs) =>
+      match lookup ref svcs with
+      | none => .err "notFoundInFile"
+      | some _ => .panic site
     | some _ => .err "fileServicesNotMapping"
 
 /-- where the base lives: (map to recurse in, tracker key, same-file?) -/
@@ -167,6 +188,7 @@ def applyAll (E : Env) (fuel : Nat) : List String → KVs → Out KVs
 def fileNames : FileRes → List String
   | .err _ => []
   | .panic _ => []
+  | .okResolvePanic _ _ => []
   | .ok doc _ => match lookup "services" doc with
     | some (.map svcs) => keys svcs
     | _ => []
